@@ -202,7 +202,9 @@ type senderView struct {
 	internalB int64
 	score     uint32
 	inScore   bool
-	acctNonce uint64
+	acctNonce uint64 // the implementation's idea of the account nonce (state key and witnesses only)
+	refKnown  bool   // the harness's own record: was a nonce notified while the sender was pooled
+	refNonce  uint64 // ... and the LAST such value; the C26 oracle uses only this
 	known     bool
 	failed    int64
 	sweepable bool
@@ -233,10 +235,11 @@ type inst struct {
 	lim    limits
 	v      *view // cached view of the current state
 	hist   []string
-	pend   map[string]int64 // counters of the last step, committed once per explored transition
-	pendK  *[2]string       // known-class (sig, detail) of the last step, committed likewise
-	nt     string           // non-trivial key of the last step
-	out    string           // outcome of the last step
+	ref    map[string]uint64 // harness-side record of the last notified account nonce per pooled sender
+	pend   map[string]int64  // counters of the last step, committed once per explored transition
+	pendK  *[2]string        // known-class (sig, detail) of the last step, committed likewise
+	nt     string            // non-trivial key of the last step
+	out    string            // outcome of the last step
 }
 
 type world struct {
@@ -410,8 +413,8 @@ func (s *inst) key() string {
 	fmt.Fprintf(&b, "%s/%d|%d,%d,%d,%d|%s|%s|", s.cfg, s.chunks, v.countTx, v.numBytes, v.countSenders, v.pending,
 		strings.Join(v.index, ","), strings.Join(v.scoreIdx, ","))
 	for _, x := range v.senders {
-		fmt.Fprintf(&b, "%s[%d,%v,%d,%v,%d,%v,%d]%s;", x.name, x.score, x.inScore, x.acctNonce, x.known, x.failed, x.sweepable,
-			x.internalB, strings.Join(x.hashes, ","))
+		fmt.Fprintf(&b, "%s[%d,%v,%d,%v,%d,%v,%d,%v,%d]%s;", x.name, x.score, x.inScore, x.acctNonce, x.known, x.failed, x.sweepable,
+			x.internalB, x.refKnown, x.refNonce, strings.Join(x.hashes, ","))
 	}
 	return b.String()
 }
@@ -425,8 +428,11 @@ func (v *view) describe() map[string]interface{} {
 	lists := map[string]interface{}{}
 	for _, x := range v.senders {
 		d := map[string]interface{}{"txs": x.hashes, "bytes": x.bytes, "score": x.score}
+		if x.refKnown {
+			d["lastNotifiedNonce"] = x.refNonce
+		}
 		if x.known {
-			d["accountNonce"] = x.acctNonce
+			d["implAccountNonce"] = x.acctNonce
 		}
 		if x.failed > 0 {
 			d["failedSelections"] = x.failed
@@ -563,7 +569,7 @@ func hasNonceGap(x *senderView) (initial, middle bool) {
 		nonces = append(nonces, t.nonce)
 	}
 	sort.Slice(nonces, func(i, j int) bool { return nonces[i] < nonces[j] })
-	initial = x.known && nonces[0] > x.acctNonce
+	initial = x.refKnown && nonces[0] > x.refNonce
 	for i := 1; i < len(nonces); i++ {
 		if nonces[i] > nonces[i-1]+1 {
 			middle = true
@@ -631,7 +637,7 @@ func (s *inst) checkSelection(pre *view, n, batch int, result []*txcache.Wrapped
 				allowed = 1
 			}
 			if len(sel) > allowed {
-				return "txcache:selected-despite-initial-gap", ctx(map[string]interface{}{"sender": x.name, "accountNonce": x.acctNonce,
+				return "txcache:selected-despite-initial-gap", ctx(map[string]interface{}{"sender": x.name, "lastNotifiedNonce": x.refNonce,
 					"failedSelectionsBefore": x.failed, "allowed": allowed})
 			}
 		}
@@ -641,7 +647,69 @@ func (s *inst) checkSelection(pre *view, n, batch int, result []*txcache.Wrapped
 
 // ---- step ---------------------------------------------------------------------------------
 
+// do applies one operation and then brings the harness-side account-nonce record up to date.
 func (s *inst) do(o opDesc) (sig, detail string) {
+	var pre *view
+	if s.cache != nil {
+		pre = s.view()
+	}
+	sig, detail = s.step(o)
+	s.updateRef(pre, o)
+	return sig, detail
+}
+
+// updateRef maintains the reference account nonce of every pooled sender from the operations
+// the harness itself issued (never from the implementation): NotifyAccountNonce(s, n) on a
+// sender holding >= 1 pooled tx sets it to n (the LAST notification wins, also a lower one:
+// account nonces go back on reverts); a notification for a sender without pooled txs is not
+// retained, and the record is dropped when none of the sender's pooled txs survives an
+// operation (removal of its last tx, eviction, sweep, Clear), because the cache documents the
+// account nonce as per-sender pool state. Corner: an AddTx that starts over a global threshold
+// (eviction runs first) and offers a hash the sender already pools - the survival of the
+// sender cannot be told from the contents, so that hash does not count as a survivor
+// (record dropped, oracle silent for that sender until the next notification).
+func (s *inst) updateRef(pre *view, o opDesc) {
+	if pre == nil || s.cache == nil {
+		return
+	}
+	post := s.view()
+	if s.ref == nil {
+		s.ref = map[string]uint64{}
+	}
+	if o.kind == kNotify {
+		if x := pre.sender(o.sender); x != nil && len(x.txs) > 0 {
+			s.ref[o.sender] = o.nonce
+		}
+	}
+	evictionRan := o.kind == kAdd && (pre.countTx > s.lim.count || pre.countSenders > s.lim.count || pre.numBytes > s.lim.bytes)
+	for name := range s.ref {
+		keep := false
+		px, qx := pre.sender(name), post.sender(name)
+		if px != nil && qx != nil {
+			now := map[string]bool{}
+			for _, h := range qx.hashes {
+				now[h] = true
+			}
+			for _, h := range px.hashes {
+				if evictionRan && name == o.tx.sender && h == o.tx.hash() {
+					continue
+				}
+				if now[h] {
+					keep = true
+					break
+				}
+			}
+		}
+		if !keep {
+			delete(s.ref, name)
+		}
+	}
+	for i := range post.senders {
+		post.senders[i].refNonce, post.senders[i].refKnown = s.ref[post.senders[i].name]
+	}
+}
+
+func (s *inst) step(o opDesc) (sig, detail string) {
 	s.nt, s.out, s.pend, s.pendK = "", "", map[string]int64{}, nil
 	s.hist = append(s.hist, o.name)
 	c25 := s.w.prop == "C25"
@@ -757,7 +825,7 @@ func (s *inst) do(o opDesc) (sig, detail string) {
 func (s *inst) keyOf(v *view) string {
 	var b strings.Builder
 	for _, x := range v.senders {
-		fmt.Fprintf(&b, "%s[%d,%v,%d]%s;", x.name, x.acctNonce, x.known, x.failed, strings.Join(x.hashes, ","))
+		fmt.Fprintf(&b, "%s[%d,%v,%d]%s;", x.name, x.refNonce, x.refKnown, x.failed, strings.Join(x.hashes, ","))
 	}
 	return b.String()
 }
@@ -909,13 +977,20 @@ func phasesFor(c *mc.Ctx) []alphabet {
 
 // Pools: sender a (score 0, so the requested batch size is the effective one) holds any
 // subset of nonces {0..5} (price lo) plus optionally a second, higher-priced tx for its lowest
-// nonce; sender c holds any subset of {0,1,2,3}. x notification for a in {none,0,1,2} x
+// nonce; sender c holds any subset of {0,1,2,3}. x every sequence of <= 2 notifications for a over {0,1,2,3} (21 sequences, decreasing ones included) x
 // n x batch; the same selection is issued three times in a row (failed-selection counter 0,1,2:
 // before, inside and after the grace period; the third one sweeps).
 func poolPhase(c *mc.Ctx, w *world) {
 	ns := []int{1, 2, 3, 5, 10}
 	bs := []int{1, 2, 3}
-	notif := []int{-1, 0, 1, 2}
+	// notification sequences of length <= 2 over {0,1,2,3} (increasing, equal and decreasing pairs)
+	notif := [][]int{{}}
+	for x := 0; x <= 3; x++ {
+		notif = append(notif, []int{x})
+		for y := 0; y <= 3; y++ {
+			notif = append(notif, []int{x, y})
+		}
+	}
 	type job struct{ am, cm, dup int }
 	var jobs []job
 	for am := 0; am < 64; am++ {
@@ -948,14 +1023,14 @@ func poolPhase(c *mc.Ctx, w *world) {
 			}
 		}
 		for _, nf := range notif {
-			if nf >= 0 && j.am == 0 {
+			if len(nf) > 0 && j.am == 0 {
 				continue
 			}
 			for _, n := range ns {
 				for _, b := range bs {
 					hist := append([]string{}, base...)
-					if nf >= 0 {
-						hist = append(hist, fmt.Sprintf("notify a %d", nf))
+					for _, x := range nf {
+						hist = append(hist, fmt.Sprintf("notify a %d", x))
 					}
 					sel := fmt.Sprintf("select n=%d batch=%d", n, b)
 					hist = append(hist, sel, sel, sel)
@@ -1024,7 +1099,7 @@ func main() {
 		} else {
 			c.Assumptions = append(c.Assumptions,
 				"'first ones of its nonce-ordered list': order = nonce ascending, then gas price descending; txs equal in both may appear in any order",
-				"'lowest pooled nonce above its account nonce' applies only to senders whose account nonce was notified; grace period = the sender's failed-selection counter (read before the call) + 1 lies in [senderGracePeriodLowerBound, senderGracePeriodUpperBound]",
+				"'account nonce' of a sender = the harness's own record of the LAST NotifyAccountNonce value issued while the sender held >= 1 pooled tx (a lower value replaces a higher one); never read from the implementation. Notifications for senders without pooled txs are not retained and the record is dropped when none of the sender's pooled txs survives an operation (the cache keeps account nonces as per-sender pool state); senders without a record are not constrained by the initial-gap clause; grace period = the sender's failed-selection counter (read before the call) + 1 lies in [senderGracePeriodLowerBound, senderGracePeriodUpperBound]",
 				"the pool is read through the per-sender lists (C25 judges their consistency with the hash index separately)")
 		}
 
@@ -1093,7 +1168,7 @@ func main() {
 			before := c.Counter("selections_checked")
 			poolPhase(c, w)
 			c.Set("pool_phase_selections", c.Counter("selections_checked")-before)
-			c.Rule = rule + "; every selection result judged against the pool before the call. || pools: sender a any subset of nonces 0..5 (optionally two prices for its lowest nonce) x sender c any subset of 0..3 x notified nonce of a in {none,0,1,2} x n {1,2,3,5,10} x batch {1,2,3}, per-sender limit 8, the selection issued 3 times in a row. Non-trivial = selection over a pool in which some sender has a nonce gap (first pooled nonce above notified account nonce, or two consecutive pooled nonces differing by more than 1); key = pool + notifications + failed-selection counters + (n, batch)"
+			c.Rule = rule + "; every selection result judged against the pool before the call. || pools: sender a any subset of nonces 0..5 (optionally two prices for its lowest nonce) x sender c any subset of 0..3 x every notification sequence of length <= 2 for a over {0,1,2,3} (none, single, increasing, equal, decreasing) x n {1,2,3,5,10} x batch {1,2,3}, per-sender limit 8, the selection issued 3 times in a row. Non-trivial = selection over a pool in which some sender has a nonce gap (first pooled nonce above notified account nonce, or two consecutive pooled nonces differing by more than 1); key = pool + notifications + failed-selection counters + (n, batch)"
 			c.Bound = bound + "; pools: complete"
 		}
 	})
